@@ -93,11 +93,14 @@ impl<'o> Hist<'o> {
                 let owned = self.rng.below(100) < k.w_owned;
                 let t = self.rng.below(100);
                 if t < k.w_typed / 2 {
-                    let ty = self.rng.below(if cfg!(miri) { 15 } else { 17 }) as u8;
+                    let ty = self.rng.below(if cfg!(miri) { 15 } else { 18 }) as u8;
                     let ti = ty_info(ty);
                     self.do_alloc(Req::Typed { size: ti.size, align: ti.align }, ty, owned, via);
                 } else if t < k.w_typed {
-                    let ty = self.rng.below(15) as u8;
+                    let mut ty = self.rng.below(15) as u8;
+                    if !cfg!(miri) && self.rng.chance(1, 12) {
+                        ty = 17;
+                    }
                     let ti = ty_info(ty);
                     let extra = if self.rng.chance(1, 4) { 0 } else { self.pick_size() / 2 };
                     self.do_alloc(Req::Aligned { size: ti.size, align: ti.align, extra }, ty, owned, via);
@@ -209,7 +212,8 @@ impl<'o> Hist<'o> {
             10 => {
                 let cap = self.model.cap as u64;
                 let cur = self.model.cursor as u64;
-                let n = match self.rng.below(8) {
+                let n = match self.rng.below(9) {
+                    8 => self.cfg.cap as u64, // the capacity the arena was created with (after other truncates)
                     0 => 0,
                     1 => cur,
                     2 => cur.saturating_sub(1),
